@@ -18,7 +18,6 @@ from .seqs import DRef, LRef, SObj, View
 from .text import SText, TextShape as Text  # noqa: F401
 from .shapes import Atom, Bool, Const, Custom, Enum, Int, ListOf, Nat, Obj, Opaque, Opt, Slice, Tup, TupleOf, Union  # noqa: F401
 from .values import (  # noqa: F401
-    ForallGoal,
     SBool,
     Sym,
     Unsupported,
